@@ -72,9 +72,10 @@ func flatItems(c Case) []flatItem {
 	return out
 }
 
+// an opened document starts with empty (per-document) registries, whether or not the case marks the reopen Fresh
 func freshReopenBetween(c Case, a, b int) bool {
 	for i := a + 1; i < b && i < len(c.Ops); i++ {
-		if c.Ops[i].K == "reopen" && c.Ops[i].Fresh {
+		if c.Ops[i].K == "reopen" {
 			return true
 		}
 	}
@@ -112,8 +113,8 @@ var findings = []kit.Finding[Case]{
 	},
 	{
 		ID: kfNumReopen, Clause: "C15.L",
-		Desc: "adding a list item to a document opened in another process rebuilds word/numbering.xml from the empty process-wide registry: the definitions of the existing list paragraphs are dropped and their numIds are reused",
-		// the failing item was added before a fresh-process reopen and a list op follows that reopen
+		Desc: "adding a list item to an opened document: its numbering registry starts empty, so the next add rewrites word/numbering.xml without the existing definitions and reuses their numIds",
+		// the failing item was added before a reopen and a list op follows that reopen
 		Trigger: func(c Case, f kit.Failure) bool {
 			its := flatItems(c)
 			j := itemOf(f)
@@ -121,7 +122,7 @@ var findings = []kit.Finding[Case]{
 				return false
 			}
 			for r := its[j].op + 1; r < len(c.Ops); r++ {
-				if c.Ops[r].K == "reopen" && c.Ops[r].Fresh {
+				if c.Ops[r].K == "reopen" {
 					for k := r + 1; k < len(c.Ops); k++ {
 						if isListOp(c.Ops[k].K) {
 							return true
@@ -134,8 +135,8 @@ var findings = []kit.Finding[Case]{
 	},
 	{
 		ID: kfNoteReopen, Clause: "C15.N",
-		Desc: "the notes registry is process-wide and never loaded from an opened document: after opening a document with notes in another process GetFootnoteCount/GetEndnoteCount are 0, removing an existing note fails, and adding a note rewrites the notes part from the empty registry (existing notes lost, ids reused)",
-		// the failure is observed at/after a fresh-process reopen that follows a note add
+		Desc: "notes of an opened document: its registry starts empty, so GetFootnoteCount/GetEndnoteCount are 0, removing an existing note fails, and the next add rewrites the notes part without the existing notes and reuses their ids",
+		// the failure is observed at/after a reopen that follows a note add
 		Trigger: func(c Case, f kit.Failure) bool {
 			k := opOf(f)
 			if k < 0 {
@@ -146,7 +147,7 @@ var findings = []kit.Finding[Case]{
 				if isNoteAdd(c.Ops[i].K) {
 					added = true
 				}
-				if added && c.Ops[i].K == "reopen" && c.Ops[i].Fresh {
+				if added && c.Ops[i].K == "reopen" {
 					return true
 				}
 			}
